@@ -15,6 +15,7 @@ import ActsModel.Driver.Hier
 import ActsModel.Driver.Catch
 import ActsModel.Driver.Stream
 import ActsModel.Driver.Generate
+import ActsModel.Driver.Ret
 open Lean Acts.Driver
 
 def dispatch (req : Lean.Json) : Lean.Json :=
@@ -42,6 +43,7 @@ def dispatch (req : Lean.Json) : Lean.Json :=
   | "c15.actend" => actEndCase req
   | "c15.machine" => machineCase req
   | "c16.sched" => schedCase req
+  | "c17.monitor" => retCase req
   | "ping" => Lean.Json.mkObj [("pong", Lean.Json.bool true)]
   | c => Lean.Json.mkObj [("error", Lean.Json.str s!"unknown cmd {c}")]
 
